@@ -1,5 +1,5 @@
 (* C07 - format conversion.  Model: Model/Convert.v (to_zerv.rs x2, render pipeline) + Model/Render.v. *)
-From ZV Require Import Str Zerv Render Convert ConvertProofs SemVer Pep440 Pep440Nf PepRoundTrip SemVerRoundTrip OutputGrammar RegexSrc PepParseNf.
+From ZV Require Import Str Zerv Render Convert ConvertProofs SemVer Pep440 Pep440Nf PepRoundTrip SemVerRoundTrip OutputGrammar RegexSrc PepParseNf PepSemverRound PepOutNf.
 From RelationAlgebra Require regex.
 
 (* SemVer -> Zerv always succeeds: the schema pushes of the PreReleaseProcessor never violate the placement rules,
@@ -41,6 +41,31 @@ Proof. exact render_pep440_normal_form. Qed.
 Theorem c07_render_pep440_fixed_point : forall pre s t, render_cmd FPep440 FPep440 pre s = OOk t ->
   exists v, pep_parse s = Some v /\ t = pre ++ pep_print v /\ render_cmd FPep440 FPep440 [] (pep_print v) = OOk (pep_print v).
 Proof. exact render_pep440_fixed_point. Qed.
+
+(* ANY PEP 440 VERSION WITH AT MOST THREE RELEASE NUMBERS converts to SemVer and back to an EQUAL PEP 440 version: for every value in
+   normal form (hence for every value the parser returns) whose local string segments do not read as numbers, the SemVer value is the
+   canonical shape of its fields (missing release numbers read as 0), zerv's SemVer parser reads the printed SemVer back as that value,
+   SemVer -> Zerv -> SemVer returns it unchanged, and Zerv -> PEP 440 yields a version that compares equal to the original *)
+Theorem c07_pep440_via_semver_equal : forall p, pep_nf p -> (length (p_release p) <= 3)%nat -> local_plain p ->
+  let sv := semver_of_zerv (zerv_of_pep p) in
+  sv = canon_semver (r0 p) (r1 p) (r2 p) (f_epoch p) (f_pre p) (p_post_num p) (p_dev_num p) (f_build p) /\
+  semver_parse (semver_print sv) = Some sv /\
+  exists z p', zerv_of_semver sv = Some z /\ semver_of_zerv z = sv /\ pep_of_zerv z = Some p' /\ pep_cmp p p' = Eq.
+Proof. exact pep_semver_pep_equal. Qed.
+
+Theorem c07_parsed_pep440_via_semver_equal : forall s p, pep_parse s = Some p -> (length (p_release p) <= 3)%nat -> local_plain p ->
+  exists z p', zerv_of_semver (semver_of_zerv (zerv_of_pep p)) = Some z /\ pep_of_zerv z = Some p' /\ pep_cmp p p' = Eq.
+Proof.
+  intros s p H L Q. destruct (pep_semver_pep_equal p (pep_parse_nf s p H) L Q) as [_ [_ [z [p' [A [_ [B C]]]]]]]. exists z, p'. repeat split; assumption.
+Qed.
+
+(* EVERY PEP 440 RENDERING is a fixed point of re-conversion: whatever Zerv object it was rendered from, PEP 440 -> Zerv -> PEP 440 returns
+   it unchanged, and `zerv render` of the printed string (pep440 -> pep440) prints the same string *)
+Theorem c07_every_pep440_rendering_fixed_point : forall z p, pep_of_zerv z = Some p ->
+  pep_of_zerv (zerv_of_pep p) = Some p /\ render_cmd FPep440 FPep440 [] (pep_print p) = OOk (pep_print p).
+Proof.
+  intros z p H. split; [apply (pep_rendering_fixed_point z p H)|]. apply (render_pep440_normal_form [] (pep_print p) p), (pep_parse_back_all z p H).
+Qed.
 
 (* THE CANONICAL SHAPE  X.Y.Z[-[epoch.E.][alpha|beta|rc.N.][post.P.][dev.D]][+ids]  (every subset of the four parts, every label):
    SemVer -> Zerv gives the expected object, Zerv -> SemVer gives back exactly the same value (numbers below 2^64) *)
@@ -99,3 +124,6 @@ Print Assumptions c07_canonical_back_to_semver.
 Print Assumptions c07_every_parsed_pep440_roundtrips.
 Print Assumptions c07_render_pep440_is_normal_form.
 Print Assumptions c07_render_pep440_fixed_point.
+Print Assumptions c07_pep440_via_semver_equal.
+Print Assumptions c07_parsed_pep440_via_semver_equal.
+Print Assumptions c07_every_pep440_rendering_fixed_point.
